@@ -219,8 +219,7 @@ func runC04Search(args []string) int {
 		if strings.HasPrefix(c.Target, "tiny") {
 			t = Target{"tiny", tinyMod, true}
 		}
-		p := c.Prog
-		nin := p.NbPub + p.NbSec
+		nin := c.Prog.NbPub + c.Prog.NbSec
 		set := []*big.Int{big.NewInt(0), big.NewInt(1), big.NewInt(2), big.NewInt(3), new(big.Int).Sub(t.Field, big.NewInt(1))}
 		total := 1
 		for i := 0; i < nin; i++ {
@@ -230,6 +229,81 @@ func runC04Search(args []string) int {
 			total = 3125
 		}
 		opt := frontend.WithCompressThreshold(c.Threshold)
+		// first the program as it is, then with every (safely observable) variable exposed: a wrong intermediate value
+		// that the program's own outputs mask becomes visible
+		for pass, p := range []*Prog{c.Prog, exposeAll(c.Prog)} {
+			found := searchTuples(rep, t, p, ci, c.Threshold, pass, set, total, opt)
+			nfound += found
+			if found > 0 {
+				break
+			}
+		}
+	}
+	rep.Extra["searched_cases"] = want
+	os.MkdirAll(filepath.Join(o.Out, "search"), 0o755)
+	rep.Write(filepath.Join(o.Out, "search"))
+	return 0
+}
+
+// exposeAll returns the program with every result variable exposed, except the variables a MulAcc may have mutated
+// (its accumulator and everything that can share a slice with it through Select / Lookup2): using those afterwards
+// is the documented misuse
+func exposeAll(p *Prog) *Prog {
+	nin := p.NbPub + p.NbSec
+	unsafe := map[int]bool{}
+	for _, op := range p.Ops {
+		if op.Kind == "MulAcc" && !op.Args[0].Const {
+			unsafe[op.Args[0].V] = true
+		}
+	}
+	for changed := true; changed; {
+		changed = false
+		v := nin
+		for _, op := range p.Ops {
+			n := op.nres(0)
+			if op.Kind == "Select" || op.Kind == "Lookup2" {
+				first := 1
+				if op.Kind == "Lookup2" {
+					first = 2
+				}
+				hit := unsafe[v]
+				for _, a := range op.Args[first:] {
+					if !a.Const && unsafe[a.V] {
+						hit = true
+					}
+				}
+				if hit {
+					if !unsafe[v] {
+						unsafe[v], changed = true, true
+					}
+					for _, a := range op.Args[first:] {
+						if !a.Const && !unsafe[a.V] {
+							unsafe[a.V], changed = true, true
+						}
+					}
+				}
+			}
+			v += n
+		}
+	}
+	q := &Prog{NbPub: p.NbPub, NbSec: p.NbSec, Ops: p.Ops}
+	v := nin
+	for _, op := range p.Ops {
+		for i := 0; i < op.nres(0); i++ {
+			if !unsafe[v+i] && len(q.Outs) < 12 {
+				q.Outs = append(q.Outs, v+i)
+			}
+		}
+		v += op.nres(0)
+	}
+	return q
+}
+
+func searchTuples(rep *Report, t Target, p *Prog, ci, threshold, pass int, set []*big.Int, total int, opt frontend.CompileOption) int {
+	nin := p.NbPub + p.NbSec
+	nfound := 0
+	c := struct{ Threshold int }{threshold}
+	{
 	tuples:
 		for k := 0; k < total; k++ {
 			in := make([]*big.Int, nin)
@@ -260,7 +334,7 @@ func runC04Search(args []string) int {
 			for _, v := range vs {
 				obs, msg := runProg(t, p, in, v.outs, opt)
 				rep.Eval(fmt.Sprintf("search|%d|%v|%s", ci, in, v.name), true)
-				desc := c04Desc{t.String(), p.String(), bigStrs(in), bigStrs(v.outs), fmt.Sprintf("builder-case-%d/threshold-%d/%s", ci, c.Threshold, v.name), obs, v.ok, why}
+				desc := c04Desc{t.String(), p.String(), bigStrs(in), bigStrs(v.outs), fmt.Sprintf("builder-case-%d/threshold-%d/pass-%d/%s", ci, c.Threshold, pass, v.name), obs, v.ok, why}
 				switch {
 				case obs == "ok" && !v.ok:
 					rep.Fail("c04:builder-divergence:accepts-violated:"+t.String(), "the emitted system differs from the Gallina builder's and Solve succeeds although "+map[bool]string{true: "the exposed output is wrong", false: why}[v.name == "wrong-out"], desc)
@@ -284,8 +358,5 @@ func runC04Search(args []string) int {
 			}
 		}
 	}
-	rep.Extra["searched_cases"] = want
-	os.MkdirAll(filepath.Join(o.Out, "search"), 0o755)
-	rep.Write(filepath.Join(o.Out, "search"))
-	return 0
+	return nfound
 }
